@@ -53,6 +53,7 @@ fn mutant_remainder(kind: usize, d: u64, n: u64) -> u64 {
 }
 
 struct Acc {
+    reuse_batches: u64,
     sens: [u64; 5],
     evaluations: u64,
     nontrivial: HashSet<(u64, u64)>,
@@ -129,6 +130,69 @@ impl Acc {
                 let h: Vec<u64> = hashes.iter().copied().take(4096).collect();
                 self.violations.push(json!({"case": {"kind": "indices", "divisor": divisor, "hashes": h}, "origin": origin,
                     "observed": b, "oracle": "partition_indices puts row i into partition hashes[i] % divisor"}));
+            }
+        }
+    }
+
+
+    /// one partitioner reused over several consecutive batches (state carried between batches: the per-partition
+    /// index vectors and the hash buffer must be reset), alternating `partition_iter` and the callback API `partition`
+    fn batch_reuse(&mut self, nparts: usize, seed: u64, origin: &str) {
+        self.evaluations += 1;
+        let schema = Arc::new(Schema::new(vec![
+            Field::new("id", DataType::Int64, false),
+            Field::new("k1", DataType::Int64, true),
+        ]));
+        let mut rng = rand::rngs::StdRng::seed_from_u64(seed ^ 0xBA7C);
+        let sizes = [257usize, 0, 1, 90, 17, 300];
+        let exprs = vec![col("k1", &schema).unwrap()];
+        let mut p = match BatchPartitioner::new_hash_partitioner(exprs, nparts, metrics::Time::new()) {
+            Ok(p) => p,
+            Err(e) => { self.nviol += 1; self.violations.push(json!({"case": {"kind": "batch_reuse", "partitions": nparts, "seed": seed}, "observed": e.to_string()})); return; }
+        };
+        let mut bad: Option<Value> = None;
+        'outer: for (bi, &rows) in sizes.iter().enumerate() {
+            let k1: Vec<Option<i64>> = (0..rows).map(|_| if rng.random_range(0..9) == 0 { None } else { Some(rng.random()) }).collect();
+            let a1: ArrayRef = Arc::new(Int64Array::from(k1));
+            let batch = RecordBatch::try_new(Arc::clone(&schema), vec![Arc::new(Int64Array::from((0..rows as i64).collect::<Vec<_>>())), Arc::clone(&a1)]).unwrap();
+            let mut hashes = vec![0u64; rows];
+            create_hashes(&[a1], REPARTITION_RANDOM_STATE.random_state(), &mut hashes).unwrap();
+            let res = catch_unwind(AssertUnwindSafe(|| -> Result<Vec<(usize, RecordBatch)>, String> {
+                if bi % 2 == 0 {
+                    let it = p.partition_iter(batch).map_err(|e| e.to_string())?;
+                    it.map(|r| r.map_err(|e| e.to_string())).collect()
+                } else {
+                    let mut out = vec![];
+                    p.partition(batch, |i, b| { out.push((i, b)); Ok(()) }).map_err(|e| e.to_string())?;
+                    Ok(out)
+                }
+            }));
+            self.reuse_batches += 1;
+            match res {
+                Err(_) => { bad = Some(json!({"batch": bi, "what": "panic"})); break 'outer; }
+                Ok(Err(e)) => { bad = Some(json!({"batch": bi, "what": format!("error: {e}")})); break 'outer; }
+                Ok(Ok(parts)) => {
+                    let mut seen = vec![false; rows];
+                    for (pi, b) in parts {
+                        let idc = b.column(0).as_any().downcast_ref::<Int64Array>().unwrap();
+                        for i in 0..idc.len() {
+                            let r = idc.value(i) as usize;
+                            if r >= rows || seen[r] || pi >= nparts || (hashes[r] % nparts as u64) as usize != pi {
+                                bad = Some(json!({"batch": bi, "rows_in_batch": rows, "row": r, "partition": pi, "expected": hashes.get(r).map(|h| h % nparts as u64), "duplicate_or_stale": r >= rows || seen[r]}));
+                                break 'outer;
+                            }
+                            seen[r] = true;
+                        }
+                    }
+                    if seen.iter().any(|s| !s) { bad = Some(json!({"batch": bi, "what": "a row is missing from the partitioned output"})); break 'outer; }
+                }
+            }
+        }
+        if let Some(b) = bad {
+            self.nviol += 1;
+            if self.violations.len() < 20 {
+                self.violations.push(json!({"case": {"kind": "batch_reuse", "partitions": nparts, "seed": seed}, "origin": origin, "observed": b,
+                    "oracle": "a reused BatchPartitioner puts each row of each batch into partition create_hashes(keys) % n, exactly once"}));
             }
         }
     }
@@ -264,7 +328,7 @@ pub fn main() {
     let quick = util::tier_quick();
     let mut rng = rand::rngs::StdRng::seed_from_u64(seed ^ 0xC11);
     std::panic::set_hook(Box::new(|_| {}));
-    let mut acc = Acc { sens: [0; 5], evaluations: 0, nontrivial: HashSet::new(), carry1: 0, carry0: 0, pow2: 0, violations: vec![], nviol: 0, samples: vec![] };
+    let mut acc = Acc { reuse_batches: 0, sens: [0; 5], evaluations: 0, nontrivial: HashSet::new(), carry1: 0, carry0: 0, pow2: 0, violations: vec![], nviol: 0, samples: vec![] };
     let mut stats = serde_json::Map::new();
 
     if let Some(rp) = util::arg("--replay") {
@@ -276,6 +340,7 @@ pub fn main() {
                 let h: Vec<u64> = c["hashes"].as_array().unwrap().iter().map(|x| x.as_u64().unwrap()).collect();
                 acc.indices(c["divisor"].as_u64().unwrap() as usize, &h, "replay")
             }
+            "batch_reuse" => acc.batch_reuse(c["partitions"].as_u64().unwrap() as usize, c["seed"].as_u64().unwrap(), "replay"),
             "batch" => acc.batch(c["partitions"].as_u64().unwrap() as usize, c["rows"].as_u64().unwrap() as usize, c["seed"].as_u64().unwrap(), "replay"),
             k => panic!("unknown replay kind {k}"),
         }
@@ -311,7 +376,7 @@ pub fn main() {
         }
         stats.insert("structured_divisors".into(), json!(ds.len()));
         stats.insert("structured_pairs".into(), json!(pairs));
-        let nrand = if quick { 400_000 } else { 8_000_000 };
+        let nrand = if quick { 120_000 } else { 8_000_000 };
         for _ in 0..nrand {
             let bd = rng.random_range(2..=64u32);
             let d = (rng.random::<u64>() >> (64 - bd)).max(1);
@@ -321,8 +386,8 @@ pub fn main() {
         stats.insert("random_pairs".into(), json!(nrand));
         // small exhaustive corner natively (all d <= 300, n <= 2000) -- also the scope TLC proves at W <= 8
         let mut small = 0u64;
-        for d in 1..=300u64 {
-            for n in 0..=2000u64 {
+        for d in 1..=(if quick { 130u64 } else { 300 }) {
+            for n in 0..=(if quick { 1100u64 } else { 2000 }) {
                 acc.remainder(d, n, "small-exhaustive");
                 small += 1;
             }
@@ -353,6 +418,13 @@ pub fn main() {
                 brows += rows as u64;
             }
         }
+        for (i, &c) in bcounts.iter().enumerate() {
+            acc.batch_reuse(c, seed.wrapping_mul(7919).wrapping_add(i as u64), "BatchPartitioner reused");
+        }
+        // zero partitions must be refused, not divide by zero
+        let zero_refused = BatchPartitioner::new_hash_partitioner(vec![], 0, metrics::Time::new()).is_err();
+        stats.insert("zero_partitions_refused".into(), json!(zero_refused));
+        stats.insert("batch_partitioner_reuse_batches".into(), json!(acc.reuse_batches));
         stats.insert("batch_partitioner_counts".into(), json!(bcounts.len()));
         stats.insert("batch_partitioner_rows".into(), json!(brows));
     }
